@@ -54,6 +54,48 @@ class Scripted:
         np.random.rand, np.random.choice = self._rand, self._choice
 
 
+def structured(logl, logw):
+    a = np.zeros(len(logl), dtype=[("x", "f8"), ("logL", "f8"), ("logW", "f8")])
+    a["logL"] = [float(v) for v in logl]
+    a["logW"] = [float(v) for v in logw]
+    return a
+
+
+def ess_state_case(c):
+    """effective_n_posterior_samples of a real integral state, in the state the case asks for.
+    Every public value is read twice and the returned weight array is overwritten in between: the
+    ESS property must neither change nor depend on previously returned arrays."""
+    from nessai.evidence import _INSIntegralState, _NSIntegralState
+    from nessai.utils.stats import effective_sample_size
+
+    which = c["state"]
+    if which in ("ns", "ns_running"):
+        st = _NSIntegralState(int(c["ns"][0]), track_gradients=False, expectation=c.get("mode", "logt"))
+        for l, n in zip(c["ls"], c["ns"]):
+            st.increment(float(l), nlive=int(n))
+        if which == "ns":
+            st.finalise()
+    elif which == "ins":
+        st = _INSIntegralState()
+        lp = None if c.get("lp_logL") is None else structured(c["lp_logL"], c["lp_logW"])
+        st.update_evidence(structured(c["ns_logL"], c["ns_logW"]), lp)
+    else:
+        raise SystemExit("unknown state " + which)
+    w1 = np.array(st.log_posterior_weights, dtype=float)
+    e1 = float(st.effective_n_posterior_samples)
+    w2 = st.log_posterior_weights
+    same12 = bool(np.array_equal(w1, np.asarray(w2), equal_nan=True))
+    try:
+        w2[...] = 0.0            # a caller editing the returned array must not reach the state
+    except Exception:
+        pass
+    e2 = float(st.effective_n_posterior_samples)
+    w3 = np.array(st.log_posterior_weights, dtype=float)
+    same13 = bool(np.array_equal(w1, w3, equal_nan=True))
+    return {"w": [float(v) for v in w1], "ess": e1, "ess_again": e2, "weights_stable": same12 and same13,
+            "ess_fn": float(effective_sample_size(w1.copy())), "cls": type(st).__name__}
+
+
 def run_case(c):
     from nessai.posterior import compute_weights, draw_posterior_samples
     from nessai.utils.stats import effective_sample_size
@@ -67,14 +109,16 @@ def run_case(c):
                 out["ess_list"] = float(effective_sample_size([float(v) for v in lw]))
             return out
         if kind == "ess_state":
-            from nessai.evidence import _NSIntegralState
-            st = _NSIntegralState(int(c["ns"][0]), track_gradients=False, expectation=c.get("mode", "logt"))
-            for l, n in zip(c["ls"], c["ns"]):
-                st.increment(float(l), nlive=int(n))
-            st.finalise()
-            w = st.log_posterior_weights
-            return {"w": [float(v) for v in w], "ess": float(st.effective_n_posterior_samples),
-                    "ess_fn": float(effective_sample_size(w))}
+            return ess_state_case(c)
+        if kind == "state_classes":
+            import inspect
+            import nessai.evidence as ev
+            names = []
+            for name, obj in inspect.getmembers(ev, inspect.isclass):
+                if obj.__module__ == ev.__name__ and hasattr(obj, "effective_n_posterior_samples") \
+                        and not inspect.isabstract(obj):
+                    names.append(name)
+            return {"classes": sorted(names)}
         if kind == "ess_empty":
             from nessai.evidence import _NSIntegralState
             st = _NSIntegralState(5, track_gradients=False)
